@@ -1,4 +1,4 @@
 SPECIFICATION Spec
 CONSTANTS MaxW = 3  MaxH = 2
 CONSTANT Samples <- SamplesDef
-INVARIANTS P6Law BmpLaw
+INVARIANTS P6Law BmpLaw PngFilterLaw
